@@ -32,7 +32,7 @@ def scenario(out, name, params, profiles=("debug", "release"), judge=None):
     b, err = bins(out.prop)
     if b is None:
         return False, {"error": "native build failed: " + err}
-    rep = {}
+    rep = {"_scenario": {"name": name, "params": params}}
     confirmed = False
     for prof in profiles:
         rc, o = C.sh([b[prof], name, json.dumps(params)], timeout=300)
